@@ -84,7 +84,15 @@ struct TJob final : yaclib::Job {
   }
   void Drop() noexcept final {
     ++drops;
+    // like a dropped pipeline step whose successor targets the same executor: Drop re-enters Submit
+    if (child != nullptr && resubmit_to != nullptr && resubmit_on_drop) {
+      child->submit_begin = ++s->clock;
+      resubmit_to->Submit(*child);
+      child->submit_end = ++s->clock;
+      child->dropped_at_submit_return = child->drops > 0;
+    }
   }
+  bool resubmit_on_drop = false;
 };
 
 struct Config {
@@ -165,6 +173,7 @@ void RunCase(Explorer& ex, const Config& cf, RunOut& out) {
         child->serial = serial;
         all[i]->child = child.get();
         all[i]->resubmit_to = e.Get();
+        all[i]->resubmit_on_drop = true;
         all.push_back(std::move(child));
       }
     }
@@ -238,7 +247,7 @@ void RunCase(Explorer& ex, const Config& cf, RunOut& out) {
           std::size_t fin = 0, expected = 0;
           for (std::size_t i = 0; i < all.size(); ++i) {
             const bool is_child = i >= base;
-            if (is_child && all[static_cast<std::size_t>(all[i]->seq)]->calls == 0) {
+            if (is_child && all[static_cast<std::size_t>(all[i]->seq)]->calls + all[static_cast<std::size_t>(all[i]->seq)]->drops == 0) {
               continue;
             }
             ++expected;
@@ -272,7 +281,7 @@ void RunCase(Explorer& ex, const Config& cf, RunOut& out) {
     if (child) {
       // a child exists only if its parent was Called
       TJob& parent = *all[static_cast<std::size_t>(j.seq)];
-      if (parent.calls == 0) {
+      if (parent.calls + parent.drops == 0) {
         if (j.calls + j.drops != 0) {
           out.err = "child job finished although its parent never ran";
           return;
